@@ -312,6 +312,20 @@ def announce(ctx):
     b, bb, i, place, k, ops, line = adds[0]
     tainted, sinks = flow.taint(b, [place[0]], through_all_calls=False)
     senders = [c for c, idx in sinks if "BroadcastInput" in c.self_ty and re.search(r"::(send|try_send|blocking_send|send_timeout)$", c.f)]
+    if not senders:
+        # the message is built first and moved into the spawned task that sends it
+        for bb2, bl in enumerate(b.blocks):
+            for st in bl["s"]:
+                if st[0] == "A" and st[2][0] == "agg" and isinstance(st[2][1], dict) and (st[2][1].get("coroutine") or st[2][1].get("closure")):
+                    cid = st[2][1].get("coroutine") or st[2][1].get("closure")
+                    for nm, op in zip(st[2][1].get("fields", []), st[2][2]):
+                        if op_place(op) is not None and op_place(op)[0] in tainted:
+                            child = F.get(cid)
+                            for x in (child.calls if child is not None else []):
+                                if "BroadcastInput" in x.self_ty and re.search(r"::(send|try_send|blocking_send|send_timeout)$", x.f) and len(x.args) > 1 and op_place(x.args[1]) is not None:
+                                    org = flow.origins(child, op_place(x.args[1]), at=(x.bb, "T"))
+                                    if org and all(o.kind == "arg" and o.local == 1 and nm in o.field_names()[:1] for o in org):
+                                        senders.append(x)
     if not R.anchor(senders, "send-call", "the channel send receiving the AddBroadcast value"):
         return
     c = senders[0]
